@@ -1,48 +1,72 @@
 ------------------------------ MODULE Tracing ------------------------------
 (***************************************************************************)
 (* kfac/tracing.py: a global table  function name -> sequence of timing    *)
-(* samples.  Call(f, dur, outcome) of a traced function appends exactly    *)
-(* one sample when the call completes (returns), none when it raises;      *)
-(* Get(avg, maxHistory) reports the sum or the mean of the last maxHistory *)
-(* samples (all when unset); Clear empties the table.  Two distinct        *)
-(* functions may share a name: they share one entry.                       *)
-(* Durations are small integers (the harness scripts the clock with dyadic *)
-(* values so float sums and means are exact).                              *)
+(* samples.  A call of a traced function Begins, time passes (Tick), other  *)
+(* traced functions -- or the same one, recursively -- may be called        *)
+(* inside it, and it Ends by returning or raising.  A completed (returned)  *)
+(* call appends exactly one sample, the time between ITS begin and ITS end, *)
+(* under the function's name; a call that raises appends nothing.           *)
+(* Get(avg, maxHistory) reports the sum or the mean of the last maxHistory  *)
+(* samples (all when unset); Clear empties the table (also while calls are  *)
+(* in progress).  Two distinct functions may share a name: one entry.       *)
+(* Durations are small integers (the harness scripts the clock with dyadic  *)
+(* values so float sums and means are exact).                               *)
 (***************************************************************************)
 EXTENDS Naturals, Sequences, FiniteSets, TLC, Json
 
 \* BEGIN-CONSTANTS
 CONSTANTS
     Funcs,      \* traced functions: [id, name]
-    Durs,       \* set of durations
+    Durs,       \* set of tick durations
     Hist,       \* set of max_history values; 0 stands for "unset" (None)
+    MaxNest,    \* maximal call nesting depth
     MaxDepth
 \* END-CONSTANTS
 
-VARIABLES table, order, h
-vars == <<table, order, h>>
-\* table: [name -> Seq(dur)] for names in `order` (insertion order of keys)
-Init == table = <<>> /\ order = <<>> /\ h = <<>>
+VARIABLES table, order, stack, now, h
+vars == <<table, order, stack, now, h>>
+\* table: [index -> Seq(dur)] for the names in `order` (insertion order of keys)
+\* stack: calls in progress, innermost last: [f (id), name, start]
+Init == table = <<>> /\ order = <<>> /\ stack = <<>> /\ now = 0 /\ h = <<>>
 
 Names == {order[i] : i \in DOMAIN order}
-Samples(nm) == table[CHOOSE i \in DOMAIN order : order[i] = nm]
 Idx(nm) == CHOOSE i \in DOMAIN order : order[i] = nm
 
 RECURSIVE SumSeq(_)
 SumSeq(s) == IF s = <<>> THEN 0 ELSE Head(s) + SumSeq(Tail(s))
 LastN(s, k) == IF k = 0 \/ Len(s) <= k THEN s ELSE SubSeq(s, Len(s) - k + 1, Len(s))
 
-Call(f, d, raises) ==
-    /\ Len(h) < MaxDepth
-    /\ IF raises
-       THEN UNCHANGED <<table, order>>
-       ELSE IF f.name \in Names
-            THEN /\ table' = [table EXCEPT ![Idx(f.name)] = Append(@, d)]
-                 /\ order' = order
-            ELSE /\ table' = Append(table, <<d>>)
-                 /\ order' = Append(order, f.name)
-    /\ h' = Append(h, [act |-> "call", f |-> f.id, d |-> d, raises |-> raises,
-                       exp |-> <<>>])
+\* every call in progress can still be ended within the depth bound
+Room == Len(h) + Len(stack) < MaxDepth
+Rec(act, f, d, flag, exp) ==
+    h' = Append(h, [act |-> act, f |-> f, d |-> d, flag |-> flag, exp |-> exp])
+
+Begin(f) ==
+    /\ Len(h) + Len(stack) + 2 <= MaxDepth /\ Len(stack) < MaxNest
+    /\ stack' = Append(stack, [f |-> f.id, name |-> f.name, start |-> now])
+    /\ UNCHANGED <<table, order, now>>
+    /\ Rec("begin", f.id, 0, FALSE, <<>>)
+
+Tick(d) ==
+    /\ Room /\ stack # <<>>
+    /\ now' = now + d
+    /\ UNCHANGED <<table, order, stack>>
+    /\ Rec("tick", 0, d, FALSE, <<>>)
+
+End(raises) ==
+    /\ stack # <<>>
+    /\ LET top == stack[Len(stack)]
+           d == now - top.start
+       IN /\ stack' = SubSeq(stack, 1, Len(stack) - 1)
+          /\ IF raises
+             THEN UNCHANGED <<table, order>>
+             ELSE IF top.name \in Names
+                  THEN /\ table' = [table EXCEPT ![Idx(top.name)] = Append(@, d)]
+                       /\ order' = order
+                  ELSE /\ table' = Append(table, <<d>>)
+                       /\ order' = Append(order, top.name)
+    /\ UNCHANGED now
+    /\ Rec("end", 0, 0, raises, <<>>)
 
 \* report: sequence of [name, num, den] (statistic = num / den) in table order
 Report(avg, k) ==
@@ -52,37 +76,43 @@ Report(avg, k) ==
          den |-> IF avg THEN Len(s) ELSE 1]]
 
 Get(avg, k) ==
-    /\ Len(h) < MaxDepth
-    /\ UNCHANGED <<table, order>>
-    /\ h' = Append(h, [act |-> "get", f |-> 0, d |-> k, raises |-> avg,
-                       exp |-> Report(avg, k)])
+    /\ Room
+    /\ UNCHANGED <<table, order, stack, now>>
+    /\ Rec("get", 0, k, avg, Report(avg, k))
 
 Clear ==
-    /\ Len(h) < MaxDepth /\ order # <<>>
+    /\ Room /\ order # <<>>
     /\ table' = <<>> /\ order' = <<>>
-    /\ h' = Append(h, [act |-> "clear", f |-> 0, d |-> 0, raises |-> FALSE,
-                       exp |-> <<>>])
+    /\ UNCHANGED <<stack, now>>
+    /\ Rec("clear", 0, 0, FALSE, <<>>)
 
 Next ==
-    \/ \E f \in Funcs : \E d \in Durs : \E r \in BOOLEAN : Call(f, d, r)
+    \/ \E f \in Funcs : Begin(f)
+    \/ \E d \in Durs : Tick(d)
+    \/ \E r \in BOOLEAN : End(r)
     \/ \E a \in BOOLEAN : \E k \in Hist : Get(a, k)
     \/ Clear
 Spec == Init /\ [][Next]_vars
-view == <<table, order>>
+view == <<table, order, stack, now>>
 
 (* properties *)
+Tot(t) == SumSeq([i \in DOMAIN t |-> Len(t[i])])
+\* exactly one sample per completed call, none otherwise (Clear aside)
 OneSamplePerCompletedCall ==
-    [][\A i \in DOMAIN order' :
-          (i \in DOMAIN order /\ order[i] = order'[i])
-              => Len(table'[i]) \in {Len(table[i]), Len(table[i]) + 1}]_vars
-TotalGrowsByAtMostOne ==
-    LET Tot(t) == SumSeq([i \in DOMAIN t |-> Len(t[i])]) IN
-    [][Tot(table') <= Tot(table) + 1]_vars
+    [][IF \E r \in BOOLEAN : End(r)
+       THEN Tot(table') \in {Tot(table), Tot(table) + 1}
+       ELSE (Tot(table') = Tot(table) \/ table' = <<>>)]_vars
 QueriesDoNotChange ==
     [][(\E a \in BOOLEAN : \E k \in Hist : Get(a, k)) => UNCHANGED <<table, order>>]_vars
 NoEmptyEntries == \A i \in DOMAIN table : table[i] # <<>>
 UniqueKeys == \A i, j \in DOMAIN order : i # j => order[i] # order[j]
+\* a sample is the duration of its own call: never longer than the elapsed time
+SamplesBounded == \A i \in DOMAIN table : \A j \in DOMAIN table[i] : table[i][j] <= now
+\* nesting discipline: starts are non-decreasing along the stack
+StackOrdered == \A i \in 1..(Len(stack) - 1) : stack[i].start <= stack[i + 1].start
 
 EmitDone ==
-    IF Len(h) >= MaxDepth THEN PrintT(ToJson(h)) /\ FALSE ELSE TRUE
+    IF Len(h) >= MaxDepth \/ (Len(h) + Len(stack) >= MaxDepth)
+    THEN IF stack = <<>> THEN PrintT(ToJson(h)) /\ FALSE ELSE TRUE
+    ELSE TRUE
 =============================================================================
